@@ -400,6 +400,79 @@ def run_witnesses(ctx):
             shutil.rmtree(root, ignore_errors=True)
 
 
+def check_inherit(ctx, n):
+    """C05.Inherit.members / lookup_member against Type.get_children() and go-to-definition through `%` on generated EXTENDS chains"""
+    coq = ctx.coq("From Coq Require Import ZArith.\nFrom FV Require Import Base.Str Shared.Resolve C05.Inherit.")
+    r = ctx.rng
+    pool = ["ca", "cb", "cc", "cd", "ce"]
+    exprs, meta = [], []
+    for k in range(n):
+        nt = r.choice([2, 3, 4, 5])
+        parents = [None] + [r.randrange(0, i) for i in range(1, nt)]      # a forest rooted at type 0, parents declared first
+        comps = [r.sample(pool, r.choice([0, 1, 2, 3])) for _ in range(nt)]
+        lines = ["module m_inh", "implicit none"]
+        decl = {}
+        for i in range(nt):
+            lines.append("type%s :: t%d" % ("" if parents[i] is None else ", extends(t%d)" % parents[i], i))
+            for c in comps[i]:
+                decl[(i, c)] = len(lines)
+                lines.append("  integer :: %s" % c)
+            lines.append("end type t%d" % i)
+        lines.append("contains")
+        lines.append("subroutine s_inh()")
+        for i in range(nt):
+            lines.append("type(t%d) :: o%d" % (i, i))
+        sites = []
+        for i in range(nt):
+            for c in pool:
+                sites.append((len(lines), i, c))
+                lines.append("o%d%%%s = 1" % (i, c))
+        lines += ["end subroutine s_inh", "end module m_inh"]
+        text = "\n".join(lines) + "\n"
+        root = tempfile.mkdtemp(prefix="verif_c05_i_")
+        try:
+            path = os.path.join(root, "m_inh.f90")
+            with open(path, "w") as f:
+                f.write(text)
+            srv, conn = impl.make_server(root, extra=["--nthreads", "1"])
+            impl.did_open(srv, path)
+            mod = srv.obj_tree["m_inh"][0]
+            tyobjs = {c.name.lower(): c for c in mod.children if type(c).__name__ == "Type"}
+            ctx.count(("inherit", text), nt > 2)
+            ents = {}
+
+            def eid(i, c):
+                return ents.setdefault((i, c), len(ents) + 1)
+            ts = clist(range(nt), lambda i: "(TY %s %s)" % (clist(comps[i], lambda c: "(EN %s 0%%Z %s)" % (cstr(c), cnat(eid(i, c)))),
+                                                            "None" if parents[i] is None else "(Some %s)" % cnat(parents[i])))
+            for i in range(nt):
+                got = [c.name.lower() for c in tyobjs["t%d" % i].get_children()]
+                exprs.append("list_eqb str_eqb (map e_name (members %s %s %s)) %s" % (cnat(nt + 1), ts, cnat(i), clist(got, cstr)))
+                meta.append({"text": text, "type": "t%d" % i, "implementation": got})
+            # the language rule, directly: nearest declaration up the chain
+            for (line, i, c) in sites:
+                j, want = i, None
+                while j is not None:
+                    if c in comps[j]:
+                        want = decl[(j, c)]
+                        break
+                    j = parents[j]
+                resp, _ = impl.request(srv, conn, "textDocument/definition", impl.pos_params(path, line, len("o%d%%" % i) + 1))
+                got = resp[2]["range"]["start"]["line"] if resp and resp[0] == "r" and resp[2] else None
+                if got != want:
+                    ctx.report("C05:inherited-component", "o%d%%%s lands on line %s, the nearest declaration up the EXTENDS chain is on line %s" % (i, c, got, want),
+                               {"kind": "counterexample", "input": {"files": {"m_inh.f90": text}, "site": {"file": "m_inh.f90", "line": line, "character": len("o%d%%" % i) + 1}},
+                                "implementation": got, "oracle": want})
+                    break
+        finally:
+            shutil.rmtree(root, ignore_errors=True)
+    bad = coq.bools(exprs, shard=200)
+    ctx.cov["traces_validated_against_impl"] += len(exprs)
+    for b in bad[:3]:
+        ctx.report("C05:model-impl-mismatch", "Type.get_children() differs from C05.Inherit.members", {"kind": "broken-correspondence", "input": meta[b],
+                   "correspondence": "FV.C05.Inherit.members vs Type.get_children / _resolve_inherit_parent"}, found_input=False)
+
+
 def search_failing(ctx):
     return None
 
@@ -423,6 +496,7 @@ def run(ctx):
     run_witnesses(ctx)
     from .. import marked
     marked.check_definitions(ctx)
+    check_inherit(ctx, 25 if q else 500)
     run_worlds(ctx, 50 if q else 1500, intermediate_private=False)
     run_worlds(ctx, 15 if q else 400, intermediate_private=True)
 
